@@ -152,7 +152,7 @@ def c02b(ctx, tu):
             if e["e"] == "call" and qe(e) in (A["push_front"], A["push_back"]) and f.qe not in (A["hook_last"],) and \
                     not (merged and f.qe == "trompeloeil::call_validator_t::make_expectation"):
                 r = str(e.get("recv"))
-                if "expectations<" in r and ("::active" in r):
+                if ("expectations<" in r or "expectation_lists<" in r) and ("::active" in r):
                     ctx.ob("C02.b", f.qe, False, pattern=short_loc(e.get("loc", "")), unit=tu.name,
                            detail="%s inserts into an active expectation list" % f.qe)
     # list::begin starts at the head's successor
@@ -189,7 +189,7 @@ def c02d(ctx, tu):
                 mem = None
                 if ok:
                     x = rets[0]
-                    ok = x[:1] == ["member"] and erase(x[1]) == "trompeloeil::expectations::active" and \
+                    ok = x[:1] == ["member"] and lib.holder_field(tu, x[1]) == "active" and \
                         x[2][:1] == ["member"] and x[2][2] == ["this"]
                     if ok:
                         mem = x[2][1]
